@@ -241,11 +241,14 @@ def normalize_url(
     """
     original_url_arg = url
 
+    # NOTE: cleaning comes first, else a stray control character can hide
+    # (or fake) a redirection hint
+    url = CONTROL_CHARS_RE.sub("", url)
+    url = url.strip()
+
     if infer_redirection:
         url = resolve(url)
 
-    url = CONTROL_CHARS_RE.sub("", url)
-    url = url.strip()
     url = upper_quoted(url)
 
     has_protocol = PROTOCOL_RE.match(url)
